@@ -117,13 +117,21 @@ type statsRec struct {
 func (r statsRec) rec(k string, t time.Time, d time.Duration) {
 	*r.evs = append(*r.evs, statsEv{true, k, t, d})
 }
-func (r statsRec) Success(_ context.Context, t time.Time, d time.Duration)       { r.rec("KSuccess", t, d) }
-func (r statsRec) ErrFailure(_ context.Context, t time.Time, d time.Duration)    { r.rec("KFailure", t, d) }
-func (r statsRec) ErrTimeout(_ context.Context, t time.Time, d time.Duration)    { r.rec("KTimeout", t, d) }
-func (r statsRec) ErrBadRequest(_ context.Context, t time.Time, d time.Duration) { r.rec("KBadRequest", t, d) }
-func (r statsRec) ErrInterrupt(_ context.Context, t time.Time, d time.Duration)  { r.rec("KInterrupt", t, d) }
-func (r statsRec) ErrConcurrencyLimitReject(_ context.Context, t time.Time)      { r.rec("KReject", t, 0) }
-func (r statsRec) ErrShortCircuit(_ context.Context, t time.Time)                { r.rec("KShort", t, 0) }
+func (r statsRec) Success(_ context.Context, t time.Time, d time.Duration) { r.rec("KSuccess", t, d) }
+func (r statsRec) ErrFailure(_ context.Context, t time.Time, d time.Duration) {
+	r.rec("KFailure", t, d)
+}
+func (r statsRec) ErrTimeout(_ context.Context, t time.Time, d time.Duration) {
+	r.rec("KTimeout", t, d)
+}
+func (r statsRec) ErrBadRequest(_ context.Context, t time.Time, d time.Duration) {
+	r.rec("KBadRequest", t, d)
+}
+func (r statsRec) ErrInterrupt(_ context.Context, t time.Time, d time.Duration) {
+	r.rec("KInterrupt", t, d)
+}
+func (r statsRec) ErrConcurrencyLimitReject(_ context.Context, t time.Time) { r.rec("KReject", t, 0) }
+func (r statsRec) ErrShortCircuit(_ context.Context, t time.Time)           { r.rec("KShort", t, 0) }
 
 type statsFbRec struct{ evs *[]statsEv }
 
@@ -378,6 +386,26 @@ func (statsFamily) Exec(c *hc.Case) {
 		}
 	}
 	c.Outs = append(c.Outs, hc.List(el))
+	// a second manager that shares the StatFactory and creates a circuit of the SAME name: its traffic is its own;
+	// the stats of the first circuit do not move
+	{
+		before := []int64{rs.Successes.TotalSum(), rs.ErrFailures.TotalSum(), rs.ErrTimeouts.TotalSum(), fs.Successes.TotalSum(), fs.ErrFailures.TotalSum()}
+		m2 := &circuit.Manager{DefaultCircuitProperties: []circuit.CommandPropertiesConstructor{sf.CreateConfig}}
+		var b2 circuit.Config
+		b2.General.TimeKeeper.Now = clk
+		replica := m2.MustCreateCircuit("stats-circuit", b2)
+		for k := 0; k < 3; k++ {
+			_ = replica.Execute(context.Background(), func(context.Context) error { return errRun }, func(context.Context, error) error { return errRun })
+			_ = replica.Run(context.Background(), func(context.Context) error { return nil })
+		}
+		after := []int64{rs.Successes.TotalSum(), rs.ErrFailures.TotalSum(), rs.ErrTimeouts.TotalSum(), fs.Successes.TotalSum(), fs.ErrFailures.TotalSum()}
+		for k := range before {
+			if before[k] != after[k] {
+				c.Viol = append(c.Viol, hc.Violation{Clause: "RunStats and FallbackStats report per outcome kind a total equal to the number of calls of that kind", Detail: fmt.Sprintf("traffic on ANOTHER circuit (same name, another manager, same StatFactory) moved this circuit's totals: %v -> %v", before, after), AtOp: len(c.Ops)})
+				break
+			}
+		}
+	}
 	for t := range tags {
 		c.Tags = append(c.Tags, t)
 	}
